@@ -466,12 +466,51 @@ def _range_consumers(fb, fn, d, depth=0, seen=None):
     return list(uniq.values())
 
 
-def _follow_view(fb, fn, call, case):
-    """Where does the data_view / message returned by accessor `call` go?"""
+def _range_var_from(fn, nid):
+    """The variable a varint_range value (construct / call result at node nid) is stored in: (fn, decl id, name) or None."""
+    pm = fn.parent_map()
+    y = nid
+    h2 = 0
+    while y in pm and h2 < 8:
+        pp = fn.nodes[pm[y]]
+        h2 += 1
+        if pp.get('k') in ('wrap', 'icast') or (pp.get('k') == 'construct' and (pp.get('elidable') or pp.get('copymove'))):
+            y = pp['id']
+            continue
+        if pp.get('k') == 'call' and pp.get('op') == '=' and pp.get('recv') is not None:
+            r = fn.root_var(pp['recv'])
+            if r is not None and r[0] == 'var':
+                return (fn, r[1], r[2])
+        if pp.get('k') == 'decl':
+            for v in pp['vars']:
+                if isinstance(v.get('init'), int) and y in fn.subtree(v['init']):
+                    return (fn, v['d'], v['name'])
+        if pp.get('k') == 'return':
+            return 'return'
+        break
+    return None
+
+
+def _store_range(fb, fn, nid, case, stack):
+    rv = _range_var_from(fn, nid)
+    hops = 0
+    st = list(stack)
+    while rv == 'return' and st and hops < 4:
+        hops += 1
+        (cf, cn) = st.pop()
+        rv = _range_var_from(cf, cn)
+    if rv is not None and rv != 'return':
+        case.range_var = rv
+        case.packed = _range_consumers(fb, rv[0], rv[1])
+
+
+def _follow_view(fb, fn, call, case, stack=()):
+    """Where does the data_view / message returned by accessor `call` go?  `stack` = call sites ((fn, call node), ...) through
+    which fn was entered when the accessor sits in a helper that was handed the message."""
     pm = fn.parent_map()
     x = call['id']
     hops = 0
-    while x in pm and hops < 8:
+    while x in pm and hops < 10:
         p = fn.nodes[pm[x]]
         hops += 1
         k = p.get('k')
@@ -479,28 +518,7 @@ def _follow_view(fb, fn, call, case):
             x = p['id']
             continue
         if k == 'construct' and p.get('rcls') == VARINT_RANGE:
-            # varint_range{view}: find the variable it is stored in
-            y = p['id']
-            h2 = 0
-            while y in pm and h2 < 6:
-                pp = fn.nodes[pm[y]]
-                h2 += 1
-                if pp.get('k') in ('wrap', 'icast'):
-                    y = pp['id']
-                    continue
-                if pp.get('k') == 'call' and pp.get('op') == '=' and pp.get('recv') is not None:
-                    r = fn.root_var(pp['recv'])
-                    if r is not None and r[0] == 'var':
-                        case.range_var = (fn, r[1], r[2])
-                break
-            if case.range_var is None:
-                for m in fn.all_nodes():
-                    if m.get('k') == 'decl':
-                        for v in m['vars']:
-                            if isinstance(v.get('init'), int) and fn.strip(v['init']) == p['id']:
-                                case.range_var = (fn, v['d'], v['name'])
-            if case.range_var is not None:
-                case.packed = _range_consumers(fb, case.range_var[0], case.range_var[1])
+            _store_range(fb, fn, p['id'], case, stack)
             return
         if k == 'construct' and p.get('rcls') == MESSAGE:
             case.nested = message_of_type(p.get('rclsT'), (MESSAGE,))
@@ -520,6 +538,13 @@ def _follow_view(fb, fn, call, case):
                         if r is not None and r[0] == 'var' and r[1] == d:
                             case.nested = message_of_type(m.get('rclsT'), (MESSAGE,))
                             return
+                    if m.get('k') == 'construct' and m.get('rcls') == VARINT_RANGE and m.get('args'):
+                        r = g.root_var(m['args'][0])
+                        if r is not None and r[0] == 'var' and r[1] == d:
+                            # helper that wraps the view into a varint_range and returns it / stores it
+                            _store_range(fb, g, m['id'], case, tuple(stack) + ((fn, p['id']),))
+                            return
+                break
             return
         if k == 'decl':
             # `pbf_message<M2> sub = X.get_message();` (elided copy) or `const auto view = X.get_view();`
@@ -527,6 +552,18 @@ def _follow_view(fb, fn, call, case):
                 t = _clean_type(v.get('tC'))
                 if t and t.split('<', 1)[0] == MESSAGE:
                     case.nested = message_of_type(t, (MESSAGE,))
+                    return
+                if isinstance(v.get('init'), int) and x in fn.subtree(v['init']):
+                    # a named local for the view: follow its uses
+                    for u in fn.all_nodes():
+                        if u.get('k') == 'var' and u.get('d') == v['d']:
+                            _follow_view(fb, fn, u, case, stack)
+                            if case.nested is not None or case.range_var is not None:
+                                return
+            return
+        if k == 'return' and stack:
+            (cf, cn) = stack[-1]
+            _follow_view(fb, cf, cf.nodes[cn], case, stack[:-1])
             return
         return
 
@@ -555,13 +592,28 @@ def _case_regions(fn, sw_block):
     return out
 
 
-def _fill_case(fb, fn, case, msg_root, lo, hi, label_tree):
+def _fill_case(fb, fn, case, msg_root, lo, hi, label_tree, region=None, stack=()):
+    """Collect what happens to the field in the part of fn given by the source range [lo, hi) or the predicate region(node):
+    accessor calls on the message object msg_root, also inside helpers that are handed the message object."""
+    def inside(n):
+        if region is not None:
+            return region(n)
+        return lo <= n.get('o', -1) < hi
     for c in fn.all_nodes():
-        if c.get('k') == 'throw' and lo <= c.get('o', -1) < hi:
+        if c.get('k') == 'throw' and inside(c):
             case.throws = True
-        if c.get('k') != 'call' or c['id'] in label_tree or not (lo <= c.get('o', -1) < hi):
+        if c.get('k') != 'call' or c['id'] in label_tree or not inside(c):
             continue
         if c.get('rcls') not in (READER, MESSAGE):
+            # a helper that receives the message object: its body belongs to the case
+            if c.get('u') and c.get('args') and len(stack) < 3 and msg_root is not None:
+                for i, a in enumerate(c['args']):
+                    if fn.root_var(a) == msg_root and (fn.sn(a) or {}).get('k') == 'var':
+                        for g in fb.by_usr.get(c['u'], []):
+                            if g.has_cfg and i < len(g.params) and _clean_type(g.params[i]['tC']).split('<', 1)[0] in (READER, MESSAGE):
+                                _fill_case(fb, g, case, ('var', g.params[i]['d'], g.params[i]['name']), -1, 1 << 60, set(), None,
+                                           tuple(stack) + ((fn, c['id']),))
+                                break
             continue
         r = _recv_root(fn, c)
         if r != msg_root:
@@ -571,7 +623,7 @@ def _fill_case(fb, fn, case, msg_root, lo, hi, label_tree):
         if nm in _GETTERS_VIEW:
             case.view = True
             case.view_accessor = nm
-            _follow_view(fb, fn, c, case)
+            _follow_view(fb, fn, c, case, stack)
         elif nm.startswith('get_packed_'):
             case.view = True
             case.view_accessor = nm
@@ -579,6 +631,65 @@ def _fill_case(fb, fn, case, msg_root, lo, hi, label_tree):
         elif nm.startswith('get_'):
             case.scalar = nm[len('get_'):]
             case.scalar_node = c['id']
+            case.scalar_fn = fn
+            case.scalar_stack = tuple(stack)
+
+
+def _ifchain_of(fb, fn):
+    """Pseudo switch rows for `if (X.tag_and_type() == tag_and_type(TAG, WIRE)) ... else if ...` (X possibly named by a local)."""
+    from .c01_util import edge_guards
+    vt = var_types(fn)
+    groups = {}
+    used = set()
+    for n in fn.all_nodes():
+        if n.get('k') != 'binop' or n.get('op') != '==':
+            continue
+        sides = [(n['lhs'], n['rhs']), (n['rhs'], n['lhs'])]
+        for (a, b) in sides:
+            ta = through_locals(fn, a)
+            tb = through_locals(fn, b)
+            if (ta is not None and ta.get('k') == 'call' and ta.get('q', '').rsplit('::', 1)[-1] == 'tag_and_type' and ta.get('recv') is not None
+                    and ta.get('rcls') in (READER, MESSAGE)
+                    and tb is not None and tb.get('k') == 'call' and tb.get('q') == 'protozero::tag_and_type' and len(tb.get('args', [])) == 2):
+                root = fn.root_var(ta['recv'])
+                if root is not None and root[0] == 'var':
+                    groups.setdefault(root, []).append((n, tb))
+                    used.add(ta['id'])
+                break
+    out = []
+    for root, cmps in groups.items():
+        msg = message_of_type(_clean_type(vt.get(root[1])), (MESSAGE,))
+        sw = {'fn': fn, 'block': None, 'cond': None, 'msg': msg, 'root': root, 'cases': [], 'default': None, 'kind': 'if-chain'}
+        ids = [c[0]['id'] for c in cmps]
+        for (n, tb) in cmps:
+            num, tenum = tag_of(fn, tb['args'][0])
+            wire = fn.const_value(tb['args'][1])
+            case = DecoderCase(msg=msg or tenum, num=num, tag_enum=tenum, wire=wire, fn=fn, node=n['id'], how='if-chain')
+            case.lo = n.get('o', 0)
+            case.hi = case.lo
+            case.block = None
+            cid = n['id']
+
+            def region(x, cid=cid):
+                if x['id'] not in fn.positions():
+                    return False
+                return any(fn.strip(g) == cid and s for (g, s, _b) in edge_guards(fn, x['id']))
+            _fill_case(fb, fn, case, root, 0, 0, set(fn.subtree(n['id'])), region)
+            sw['cases'].append(case)
+        d = DecoderCase(msg=msg, num=None, fn=fn, node=None, how='default')
+        d.lo = d.hi = 0
+        d.block = None
+
+        def dregion(x):
+            if x['id'] not in fn.positions():
+                return False
+            gs = edge_guards(fn, x['id'])
+            return all(any(fn.strip(g) == cid and not s for (g, s, _b) in gs) for cid in ids)
+        _fill_case(fb, fn, d, root, 0, 0, set(), dregion)
+        if d.accessors:
+            sw['default'] = d
+        out.append(sw)
+    return out, used
 
 
 def _switches_of(fb, fn):
@@ -588,7 +699,7 @@ def _switches_of(fb, fn):
     for b in fn.blocks.values():
         if b.get('termcls') != 'SwitchStmt' or 'cond' not in b:
             continue
-        cn = fn.sn(b['cond'])
+        cn = through_locals(fn, b['cond'])   # `const auto tt = X.tag_and_type(); switch (tt)`
         if cn is None or cn.get('k') != 'call' or cn.get('q', '').rsplit('::', 1)[-1] != 'tag_and_type' or cn.get('recv') is None:
             continue
         root = fn.root_var(cn['recv'])
@@ -630,6 +741,8 @@ def pbf_switches(fb):
     for fn in fb.functions:
         if fn.has_cfg:
             out.extend(_switches_of(fb, fn))
+            if any(c.get('k') == 'call' and c.get('q', '').endswith('::tag_and_type') and c.get('rcls') in (READER, MESSAGE) for c in fn.all_nodes()):
+                out.extend(_ifchain_of(fb, fn)[0])
     return out
 
 
@@ -649,10 +762,21 @@ def pbf_decoder_cases(fb):
             continue
         vt = var_types(fn)
         # dispatch on the field of a pbf_message<> that is not `switch (X.tag_and_type())` / `X.next(TAG, WIRE)`
-        sw_conds = {fn.strip(b['cond']) for b in fn.blocks.values() if b.get('termcls') == 'SwitchStmt' and 'cond' in b}
+        sw_conds = {through_locals(fn, b['cond'])['id'] for b in fn.blocks.values()
+                    if b.get('termcls') == 'SwitchStmt' and 'cond' in b and through_locals(fn, b['cond']) is not None}
+        chains, chain_used = ([], set())
+        if any(c.get('k') == 'call' and c.get('rcls') in (READER, MESSAGE) and c.get('q', '').endswith('::tag_and_type') and c['id'] not in sw_conds
+               for c in fn.all_nodes()):
+            chains, chain_used = _ifchain_of(fb, fn)
+        for sw in chains:
+            for case in sw['cases']:
+                key = (fn.pat, case.lo, case.msg, case.num)
+                if key not in seen:
+                    seen.add(key)
+                    out.append(case)
         for c in fn.all_nodes():
             if c.get('k') == 'call' and c.get('rcls') in (READER, MESSAGE) and c.get('q', '').rsplit('::', 1)[-1] in ('tag_and_type', 'tag', 'wire_type'):
-                if c['id'] not in sw_conds:
+                if c['id'] not in sw_conds and c['id'] not in chain_used:
                     out.problems.append('%s: %s() is used outside a switch condition at %s -- dispatch shape not understood'
                                         % (fn.q, c['q'].rsplit('::', 1)[-1], fn.loc(c['id'])))
         # ---- switch (X.tag_and_type())
